@@ -43,6 +43,7 @@ PROBES = [(lbl, _PRE, st) for lbl, st in [
     ("manual_box", "frg::manual_box<V> b; b.initialize(1); (void)b.valid(); (void)(bool)b; (void)b.get(); (void)*b; (void)b->v; b.destruct();"),
     ("tuple", "frg::tuple<int, V> t(1, V(2)); (void)t.get<0>(); auto u = frg::tuple_cat(t, frg::make_tuple(3)); "
               "(void)frg::apply([](int a, V b) { return a; }, t); frg::tuple<long long, V> c(t);"),
+    ("tuple/tuple_cat_of_reference_elements", "int x = 1; frg::tuple<int &, int> r(x, 2); frg::tuple<int &> r2(x); auto c = frg::tuple_cat(r, r2); (void)c;"),
 ]]
 
 
